@@ -183,6 +183,29 @@ def run(ck):
                 if bad:
                     ck.violation('C06:%s:%s:hist=%s' % ('+'.join(bad), tag, '>'.join(x.replace('hugecall ', 'strings_of_2^31_bytes:') if x.startswith('huge') else 'plain' for x in steps[:i + 1])),
                                  {'variant': vname, 'dsmax': dsmax, 'step': st, 'failed': bad, 'record_head': data[:120].decode('latin-1'), 'record_len': len(data), 'wanted_head': want[st][:60].decode('latin-1'), 'seconds': c.get('seconds')})
+    # ---- the other tag order (%{cmdline} first, so that nothing later in the message hides what a value leaves behind in the reused buffers): a long call,
+    # then calls whose cmdline is the path fallback (NULL argv, argv[0] == NULL), then short ones - every record exact
+    for vname, ts in variants:
+        v = H.build_exec_harness('c06-%s-asan' % vname, ts=ts)
+        for dsmax in (255, 2047):
+            cfg = b'[snoopy]\nmessage_format = %%{cmdline}|%%{filename}\ndatasource_message_max_length = %d\noutput = file:log\n' % dsmax
+            longc = ('call execve %s %s [] -1 2' % (H.hx(b'/bin/long'), H.vec([H.hx(b'long')] + [(40, H.hx(b'argument-of-the-earlier-call'))])), b' '.join([b'long'] + [b'argument-of-the-earlier-call'] * 40)[:dsmax] + b'|/bin/long')
+            nullc = ('call execve %s N [] -1 2' % H.hx(b'/bin/nullargv'), b'/bin/nullargv|/bin/nullargv')
+            a0c = ('call execv %s [] N -1 2' % H.hx(b'/bin/a0null'), b'/bin/a0null|/bin/a0null')
+            shortc = ('call execve %s %s [] -1 2' % (H.hx(b'/bin/s'), H.vec([H.hx(b's')])), b's|/bin/s')
+            for seq in ([longc, nullc, a0c, shortc], [longc, a0c, longc, nullc], [nullc, longc, shortc, a0c, nullc]):
+                r = H.run_script(v['h_exec'], os.path.join(ck.workdir, 'order-%s-%d' % (vname, dsmax)), '\n'.join(['sinks pipe', 'lean 1', 'cfg ' + H.hx(cfg)] + [c for c, _ in seq]), env_extra={'VERIF_HEXMAX': '8192'}, timeout=120)
+                calls = [l for l in r['lines'] if 'call' in l]
+                tag = '%s:ds=%d:format=cmdline_first' % (vname, dsmax)
+                if not r['done'] or r['san'] or len(calls) != len(seq):
+                    ck.violation('C06:abort:%s' % tag, {'rc': r['rc'], 'sanitizer': r['san'][:1], 'stderr': r['stderr'][-300:]})
+                    continue
+                for i, ((c, want), j) in enumerate(zip(seq, calls)):
+                    total_trans += 1
+                    data = H.sink_bytes(j['logdelta'])
+                    outcomes.add((tag, i, H.fnv(data)))
+                    if data != want + b'\n':
+                        ck.violation('C06:record_wrong:%s:hist=%s' % (tag, '>'.join(x[0].split()[2][:14] for x in seq[:i + 1])), {'variant': vname, 'dsmax': dsmax, 'got': data[:200].decode('latin-1'), 'want': want[:120].decode('latin-1'), 'got_len': len(data), 'want_len': len(want) + 1})
     if not closed_all:
         ck.capped = True
     ck.assumptions += ['libc-internal state (stdio, allocator) is outside the digest; guarded by executing all ordered pairs directly',
